@@ -1343,3 +1343,408 @@ Lemma collect_reaches_owned_sw r w : r = true -> w = true -> forall h order mark
   Reach (run r w h) b x ->
   fin_count (run r w (h ++ [ECollect order marks])) x = 1 /\ free_count (run r w (h ++ [ECollect order marks])) x = 1.
 Proof. intros -> ->. exact collect_reaches_owned. Qed.
+
+(* ------------------------------------------------------------------ the machine refines the specification *)
+Record Sim (p : sp) (s : st) : Prop := {
+  sm_info : forall x, s_info p x = info s x;
+  sm_ids : s_ids p = ids s;
+  sm_owned : forall x, fin_count s x = 0 -> s_owned p x = owned s x;
+  sm_must : forall x, In x (s_must p) -> done s x;
+  sm_torn : s_torn p = torn s
+}.
+
+Lemma sp_run_snoc h e : sp_run (h ++ [e]) = sp_step (sp_run h) e.
+Proof. unfold sp_run. rewrite fold_left_app. reflexivity. Qed.
+
+Lemma s_in_spec l o : s_in l o = true <-> In o l.
+Proof. unfold s_in. apply existsb_eqb_in. Qed.
+
+Lemma done_fin1 s x : done s x -> fin_count s x = 1.
+Proof. intros [H _]; exact H. Qed.
+
+(* a model-live object is alive for the specification *)
+Lemma sim_live p s x : Sim p s -> live s x = true -> s_live p x = true.
+Proof.
+  intros M Hl. destruct (live_spec _ _ Hl) as [Hf Hi]. unfold s_live. rewrite (sm_info _ _ M).
+  destruct (info s x); [|congruence]. apply negb_true_iff. apply not_true_is_false. intros Hin.
+  apply s_in_spec in Hin. pose proof (done_fin1 _ _ (sm_must _ _ M x Hin)). lia.
+Qed.
+
+Lemma live_of_fin0 s x : info s x <> None -> fin_count s x = 0 -> live s x = true.
+Proof.
+  intros Hi Hf. unfold live. destruct (info s x); [|congruence]. apply negb_true_iff.
+  unfold fin_started. destruct (existsb (lev_eqb (LFin x)) (log s)) eqn:E; [|reflexivity].
+  exfalso. apply existsb_exists in E. destruct E as [e [Hin He]].
+  unfold fin_count, count in Hf. assert (In e (filter (lev_eqb (LFin x)) (log s))) by (apply filter_In; auto).
+  destruct (filter (lev_eqb (LFin x)) (log s)); [contradiction | discriminate].
+Qed.
+
+Lemma freed_of_done s x : done s x -> freed s x = true.
+Proof.
+  intros [_ Hf]. unfold freed. destruct (existsb (lev_eqb (LFree x)) (log s)) eqn:E; [reflexivity|].
+  apply count_zero in E. unfold free_count in Hf. lia.
+Qed.
+
+(* everything the specification's chain adds lies on the model's chain of ownership *)
+Lemma chain_reach p s :
+  Sim p s -> SInv s -> RegAll s -> torn s = false -> dangling s = false ->
+  forall f acc o x,
+    (s_live p o = true -> fin_count s o = 0) ->
+    In x (chain f (s_owned p) acc (s_live p) o) -> In x acc \/ Reach s o x.
+Proof.
+  intros M S R Ht Hdang. induction f as [|f IH]; intros acc o x Ho Hx; simpl in Hx; [left; exact Hx|].
+  destruct (s_in acc o || negb (s_live p o)) eqn:Hstop; [left; exact Hx|].
+  apply orb_false_iff in Hstop. destruct Hstop as [_ Hal]. apply negb_false_iff in Hal.
+  pose proof (Ho Hal) as Hfo.
+  rewrite (sm_owned _ _ M o Hfo) in Hx.
+  destruct (owned s o) as [q|] eqn:Hown.
+  2:{ destruct Hx as [<-|Hx]; [right; apply reach_refl | left; exact Hx]. }
+  destruct (s_live p q) eqn:Hlq.
+  - (* q alive for the specification: it is model-live (else o would dangle), hence registered *)
+    assert (Hiq : info s q <> None).
+    { destruct (si_own _ S o q Hfo Hown) as (k1 & bb & Hi & _). congruence. }
+    assert (Hio : info s o <> None).
+    { unfold s_live in Hal. rewrite (sm_info _ _ M) in Hal. destruct (info s o); [discriminate | discriminate]. }
+    assert (Hfq : fin_count s q = 0).
+    { destruct (Nat.eq_dec (fin_count s q) 0) as [Hz|Hnz]; [exact Hz|]. exfalso.
+      destruct (g_rest _ _ (si_g _ S) q (fun f => f)) as [Ha Hb].
+      assert (Hd : done s q) by (unfold done; lia).
+      assert (Hdg : dangling s = true).
+      { unfold dangling. apply existsb_exists. exists o. split; [apply (si_ids _ S); exact Hio|].
+        rewrite (live_of_fin0 _ _ Hio Hfo), Hown. simpl. apply freed_of_done. exact Hd. }
+      congruence. }
+    assert (Hreg : In q (regids s)).
+    { destruct (si_own _ S o q Hfo Hown) as (k1 & bb & Hi & Hk1). apply (R Ht q k1 bb Hi Hk1 Hfq). }
+    destruct (IH (o :: acc) q x (fun _ => Hfq) Hx) as [[<-|Hin]|HR].
+    + right. apply reach_refl.
+    + left. exact Hin.
+    + right. eapply reach_step; eassumption.
+  - (* the chain stops at q *)
+    assert (Hstopq : chain f (s_owned p) (o :: acc) (s_live p) q = o :: acc).
+    { destruct f; simpl; [reflexivity|]. rewrite Hlq. simpl. rewrite orb_true_r. reflexivity. }
+    rewrite Hstopq in Hx. destruct Hx as [<-|Hx]; [right; apply reach_refl | left; exact Hx].
+Qed.
+
+Lemma del_ext s k o :
+  SInv s -> live s o = true -> kind_of s o = Some k ->
+  let s' := match k with
+            | KRaw => finalise true (fuel_of s) s o
+            | _ => gc_rem true (finalise true (fuel_of s)) s o
+            end in
+  GInv [] s' /\ Ext s s'.
+Proof.
+  intros S Hlive Hk. pose proof (si_g _ S) as G. pose proof (si_pend _ S) as Hpe.
+  destruct (live_spec _ _ Hlive) as [Hf0 Hinf].
+  destruct k.
+  - destruct (gc_rem_ok _ _ (finalise_ok (fuel_of s)) [] s o G ltac:(unfold fuel_of, measure; lia)) as (G' & E' & _). split; assumption.
+  - destruct (gc_rem_ok _ _ (finalise_ok (fuel_of s)) [] s o G ltac:(unfold fuel_of, measure; lia)) as (G' & E' & _). split; assumption.
+  - assert (Hno : ~ In o (regids s)).
+    { intros Hin. unfold regids in Hin. apply in_map_iff in Hin. destruct Hin as [[y r] [Hy Hin]]. simpl in Hy. subst y.
+      destruct (si_reginfo _ S o r Hin) as [b' Hb']. unfold kind_of in Hk. rewrite Hb' in Hk. simpl in Hk. destruct r; discriminate. }
+    assert (Hnp : ~ In o (pids s)) by (unfold pids; rewrite Hpe; intros []).
+    destruct (finalise_ok (fuel_of s) [] s o G Hno Hnp Hf0 Hinf ltac:(unfold fuel_of, measure; lia)) as (G' & E' & _). split; assumption.
+Qed.
+
+(* the flag `bad` is never taken back (structural: no invariant needed) *)
+Lemma bad_gc_rem r fin s p : (forall s o, bad (fin s o) = bad s) -> bad (gc_rem r fin s p) = bad s.
+Proof.
+  intros Hf. unfold gc_rem. destruct (negb (running s)); [reflexivity|].
+  destruct (in_pend s p).
+  - destruct r; cbn [bad set_mitems]; [rewrite Hf; reflexivity|].
+    match goal with |- context [if ?c then _ else _] => destruct c end; [rewrite Hf|]; reflexivity.
+  - destruct (in_reg s p); cbn [bad set_mitems]; [rewrite Hf|]; reflexivity.
+Qed.
+
+Lemma bad_finalise r f : forall s o, bad (finalise r f s o) = bad s.
+Proof.
+  induction f as [|f IH]; intros s o; cbn [finalise]; [reflexivity|].
+  cbn [bad add_log]. destruct (owned (add_log (LFin o) s) o); [|reflexivity].
+  cbn [bad set_owned]. rewrite (bad_gc_rem r _ _ _ IH). reflexivity.
+Qed.
+
+Lemma bad_sweep_loop r w k : forall i s, bad (sweep_loop r w k i s) = bad s.
+Proof.
+  induction k as [|k IH]; intros i s; cbn [sweep_loop]; [reflexivity|].
+  rewrite IH. destruct (nth i (pend s) None); [|reflexivity].
+  rewrite bad_finalise. destruct w; reflexivity.
+Qed.
+
+Lemma bad_sweep r w order marks s : bad (sweep r w order marks s) = bad s.
+Proof. unfold sweep. cbn [bad set_pend]. rewrite bad_sweep_loop. reflexivity. Qed.
+
+Lemma step_bad_mono s e : bad s = true -> bad (stepF s e) = true.
+Proof.
+  intros Hb. unfold step. destruct (torn s); [reflexivity|].
+  destruct (dangling (step1 true true s e)); [reflexivity|].
+  destruct e as [k isbox o order marks | b [o|] | k o | order marks | | | order]; cbn [step1].
+  - destruct (info s o); [reflexivity|].
+    destruct k; try exact Hb.
+    + match goal with |- context [if ?c then _ else _] => destruct c end; [exact Hb|].
+      match goal with |- context [if ?c then _ else _] => destruct c end; [rewrite bad_sweep|]; exact Hb.
+    + match goal with |- context [if ?c then _ else _] => destruct c end; [exact Hb|].
+      match goal with |- context [if ?c then _ else _] => destruct c end; [rewrite bad_sweep|]; exact Hb.
+  - match goal with |- context [if ?c then _ else _] => destruct c end; [exact Hb | reflexivity].
+  - match goal with |- context [if ?c then _ else _] => destruct c end; [exact Hb | reflexivity].
+  - match goal with |- context [if ?c then _ else _] => destruct c end; [|reflexivity].
+    destruct k; [rewrite bad_gc_rem | rewrite bad_gc_rem | rewrite bad_finalise]; try exact Hb; apply bad_finalise.
+  - rewrite bad_sweep. exact Hb.
+  - exact Hb.
+  - exact Hb.
+  - cbn [bad set_torn set_reg]. rewrite bad_sweep. exact Hb.
+Qed.
+
+Lemma run_bad_prefix h e : bad (runF (h ++ [e])) = false -> bad (runF h) = false.
+Proof.
+  intros H. rewrite run_snoc in H. destruct (bad (runF h)) eqn:E; [|reflexivity].
+  rewrite (step_bad_mono _ e E) in H. discriminate.
+Qed.
+
+Lemma step_good s e :
+  bad (stepF s e) = false ->
+  torn s = false /\ stepF s e = step1 true true s e /\ dangling (step1 true true s e) = false.
+Proof.
+  unfold step. destruct (torn s); [discriminate|].
+  destruct (dangling (step1 true true s e)); [discriminate|]. auto.
+Qed.
+
+Lemma add_obj_ok s o k b : SInv s -> info s o = None -> SInv (add_obj o k b s).
+Proof.
+  intros S Hinfo. pose proof (si_g _ S) as G.
+  set (s1 := add_obj o k b s).
+  assert (Hfo : fin_count s o = 0) by (apply (si_fin_alloc _ S); exact Hinfo).
+  assert (Hno : ~ In o (regids s)).
+  { intros Hin. apply (g_info _ _ G o (or_introl Hin)). exact Hinfo. }
+  assert (Hinfo1 : forall x, x <> o -> info s1 x = info s x).
+  { intros x Hne. unfold s1. simpl. destruct (Nat.eqb_spec x o); [contradiction | reflexivity]. }
+  assert (Hinfo1o : info s1 o = Some (k, b)) by (unfold s1; simpl; rewrite Nat.eqb_refl; reflexivity).
+  constructor; try apply S.
+  - constructor; try apply G. intros x Hx. destruct (Nat.eq_dec x o) as [->|Hne].
+    + rewrite Hinfo1o. discriminate.
+    + rewrite (Hinfo1 x Hne). apply (g_info _ _ G). exact Hx.
+  - intros x r Hx. destruct (Nat.eq_dec x o) as [->|Hne].
+    + exfalso. apply Hno. unfold regids. apply in_map_iff. exists (o, r). auto.
+    + rewrite (Hinfo1 x Hne). apply (si_reginfo _ S). exact Hx.
+  - intros x Hx. destruct (Nat.eq_dec x o) as [->|Hne]; [exact Hfo|].
+    rewrite (Hinfo1 x Hne) in Hx. apply (si_fin_alloc _ S). exact Hx.
+  - intros x. destruct (Nat.eq_dec x o) as [->|Hne].
+    + rewrite Hinfo1o. split; [discriminate | intros _; left; reflexivity].
+    + rewrite (Hinfo1 x Hne). unfold s1. simpl ids. split.
+      * intros [Hx|Hx]; [congruence | apply (si_ids _ S); exact Hx].
+      * intros Hx. right. apply (si_ids _ S). exact Hx.
+  - intros b' p Hfb Hown. destruct (si_own _ S b' p Hfb Hown) as (k1 & bb & Hi & Hk1).
+    destruct (Nat.eq_dec p o) as [->|Hne]; [congruence|].
+    exists k1, bb. rewrite (Hinfo1 p Hne). auto.
+  - intros b' Hb. destruct (Nat.eq_dec b' o) as [->|Hne]; [rewrite Hinfo1o in Hb; discriminate|].
+    rewrite (Hinfo1 b' Hne) in Hb. apply (si_own_none _ S). exact Hb.
+Qed.
+
+(* what an allocation event leaves of the old state *)
+Lemma new_facts s k isbox o order marks :
+  SInv s -> info s o = None ->
+  let s1 := add_obj o k isbox s in
+  let s' := step1 true true s (ENew k isbox o order marks) in
+  info s' = info s1 /\ ids s' = ids s1 /\ torn s' = torn s /\
+  (forall y, fin_count s' y = 0 -> owned s' y = owned s y) /\ (forall x, done s x -> done s' x).
+Proof.
+  intros S Hinfo s1 s'. unfold s'. cbn [step1]. rewrite Hinfo. fold s1.
+  pose proof (add_obj_ok s o k isbox S Hinfo) as S1. fold s1 in S1.
+  assert (Hfo : fin_count s o = 0) by (apply (si_fin_alloc _ S); exact Hinfo).
+  assert (Hno : ~ In o (regids s)).
+  { intros Hin. apply (g_info _ _ (si_g _ S) o (or_introl Hin)). exact Hinfo. }
+  assert (Hio : info s1 o = Some (k, isbox)) by (unfold s1; simpl; rewrite Nat.eqb_refl; reflexivity).
+  assert (Triv : forall t, info t = info s1 -> ids t = ids s1 -> torn t = torn s -> owned t = owned s -> log t = log s ->
+            info t = info s1 /\ ids t = ids s1 /\ torn t = torn s /\
+            (forall y, fin_count t y = 0 -> owned t y = owned s y) /\ (forall x, done s x -> done t x)).
+  { intros t H1 H2 H3 H4 H5. repeat split; auto.
+    - intros y _. rewrite H4. reflexivity.
+    - destruct H as [Ha _]. unfold fin_count in *. rewrite H5. exact Ha.
+    - destruct H as [_ Hb]. unfold free_count in *. rewrite H5. exact Hb. }
+  assert (Sweep : forall r : bool, (exists bb, info s1 o = Some ((if r then KRoot else KManaged), bb)) ->
+     let s2 := set_reg ((o, r) :: reg s1) s1 in
+     let t := sweep true true order (o :: marks) s2 in
+     info t = info s1 /\ ids t = ids s1 /\ torn t = torn s /\
+     (forall y, fin_count t y = 0 -> owned t y = owned s y) /\ (forall x, done s x -> done t x)).
+  { intros r Hr s2 t.
+    assert (S2 : SInv s2) by (apply register_ok; [exact S1 | exact Hno | exact Hfo | exact Hr]).
+    destruct (sweep_ok order (o :: marks) s2 (si_g _ S2) (si_pend _ S2)) as (_ & _ & E & _).
+    fold t in E. repeat split.
+    - rewrite (e_info _ _ E). reflexivity.
+    - rewrite (e_ids _ _ E). reflexivity.
+    - rewrite (e_torn _ _ E). reflexivity.
+    - intros y Hy. rewrite (e_owned _ _ E y Hy). reflexivity.
+    - apply (e_done _ _ E). exact H.
+    - apply (e_done _ _ E). exact H. }
+  destruct k.
+  - change (running s1) with (running s). destruct (running s); simpl negb; cbv iota; [|apply Triv; reflexivity].
+    match goal with |- context [if ?c then _ else _] => destruct c end.
+    + apply (Sweep false). exists isbox. exact Hio.
+    + apply Triv; reflexivity.
+  - change (running s1) with (running s). destruct (running s); simpl negb; cbv iota; [|apply Triv; reflexivity].
+    match goal with |- context [if ?c then _ else _] => destruct c end.
+    + apply (Sweep true). exists isbox. exact Hio.
+    + apply Triv; reflexivity.
+  - apply Triv; reflexivity.
+Qed.
+
+Lemma dangling_init : dangling init = false.
+Proof. reflexivity. Qed.
+
+Lemma Sim_init : Sim sp_init init.
+Proof. constructor; try reflexivity. intros x []. Qed.
+
+(* T7: the machine refines the specification (the oracle of the check): along every history that
+   does not misuse the interface and keeps its stop windows clean, every object the specification
+   demands to be finalised by now has been finalised exactly once in the machine *)
+Theorem refines_spec_sim h :
+  bad (runF h) = false -> no_alloc_or_del_in_stop_window true true h = true ->
+  Sim (sp_run h) (runF h) /\ dangling (runF h) = false.
+Proof.
+  induction h as [|e h IH] using rev_ind; intros Hbad Hclean.
+  - split; [apply Sim_init | apply dangling_init].
+  - pose proof (run_bad_prefix h e Hbad) as Hbad0.
+    unfold no_alloc_or_del_in_stop_window in Hclean. rewrite all_from_snoc in Hclean.
+    apply andb_true_iff in Hclean. destruct Hclean as [Hc0 Hce].
+    destruct (IH Hbad0 Hc0) as [M Hdg].
+    pose proof (stop_clean_alloc_clean h Hc0) as Hca.
+    pose proof (run_inv h) as S. pose proof (run_regall h Hca) as R.
+    pose proof (run_inv (h ++ [e])) as S'.
+    assert (Hrs : runF (h ++ [e]) = stepF (runF h) e) by apply run_snoc.
+    fold (runF h) in Hce.
+    set (s := runF h) in *. set (p := sp_run h) in *.
+    set (s' := runF (h ++ [e])) in *.
+    rewrite sp_run_snoc. fold p.
+    rewrite Hrs in Hbad. destruct (step_good s e Hbad) as (Ht & Heq & Hnd).
+    assert (Hs' : s' = step1 true true s e) by (rewrite Hrs; exact Heq).
+    assert (Hbad1 : bad (step1 true true s e) = false) by (rewrite <- Heq; exact Hbad).
+    split; [|rewrite Hs'; exact Hnd].
+    pose proof (si_g _ S) as G. pose proof (si_pend _ S) as Hpe.
+    assert (Hpt : s_torn p = false) by (rewrite (sm_torn _ _ M); exact Ht).
+    unfold sp_step. rewrite Hpt.
+    destruct e as [k isbox o order marks | b [o|] | k o | order marks | | | order].
+    + (* ENew *)
+      rewrite (sm_info _ _ M o).
+      destruct (info s o) as [[k0 b0]|] eqn:Hinfo.
+      { exfalso. cbn [step1] in Hbad1. rewrite Hinfo in Hbad1. discriminate. }
+      destruct (new_facts s k isbox o order marks S Hinfo) as (Fi & Fd & Ft & Fo & Fdone).
+      rewrite <- Hs' in Fi, Fd, Ft, Fo, Fdone.
+      constructor; cbn [s_info s_ids s_owned s_must s_torn].
+      * intros x. rewrite Fi. simpl. rewrite (sm_info _ _ M x). reflexivity.
+      * rewrite Fd. simpl. rewrite (sm_ids _ _ M). reflexivity.
+      * intros x Hx. rewrite (Fo x Hx). apply (sm_owned _ _ M).
+        pose proof (finalised_at_most_once (h ++ [ENew k isbox o order marks]) x) as _.
+        destruct (Nat.eq_dec (fin_count s x) 0) as [Hz|Hnz]; [exact Hz|].
+        exfalso. destruct (g_rest _ _ G x (fun f => f)) as [Ha Hb].
+        assert (Hd : done s x) by (unfold done; lia). destruct (Fdone x Hd). lia.
+      * intros x Hx. apply Fdone. apply (sm_must _ _ M). exact Hx.
+      * rewrite Ft. symmetry; exact Ht.
+    + (* ELink b (Some o) *)
+      cbn [step1] in Hs', Hbad1.
+      destruct (live s b && is_box s b && live s o && negb (match kind_of s o with Some KRaw => true | _ => false end)
+                && negb (has_owner s o b)) eqn:Hc; [|discriminate].
+      apply andb_true_iff in Hc. destruct Hc as [Hc _].
+      apply andb_true_iff in Hc. destruct Hc as [Hc Hraw].
+      apply andb_true_iff in Hc. destruct Hc as [Hc Hlo].
+      apply andb_true_iff in Hc. destruct Hc as [Hlb Hbox].
+      rewrite (sim_live _ _ _ M Hlb), (sim_live _ _ _ M Hlo).
+      assert (Hb1 : (match s_info p b with Some (_, true) => true | _ => false end) = true).
+      { rewrite (sm_info _ _ M). unfold is_box in Hbox. destruct (info s b) as [[? []]|]; auto. }
+      assert (Hb2 : negb (match s_info p o with Some (KRaw, _) => true | _ => false end) = true).
+      { rewrite (sm_info _ _ M). unfold kind_of in Hraw. destruct (info s o) as [[[] ?]|]; auto. }
+      rewrite Hb1, Hb2. simpl andb. cbv iota.
+      rewrite Hs'. constructor; cbn [s_info s_ids s_owned s_must s_torn info ids owned torn set_owned].
+      * apply (sm_info _ _ M). * apply (sm_ids _ _ M).
+      * intros x Hx. unfold upd_owned. destruct (x =? b); [reflexivity | apply (sm_owned _ _ M); exact Hx].
+      * intros x Hx. apply (sm_must _ _ M). exact Hx.
+      * symmetry; exact Ht.
+    + (* ELink b None *)
+      cbn [step1] in Hs', Hbad1.
+      destruct (live s b && is_box s b) eqn:Hc; [|discriminate].
+      apply andb_true_iff in Hc. destruct Hc as [Hlb Hbox].
+      rewrite (sim_live _ _ _ M Hlb).
+      assert (Hb1 : (match s_info p b with Some (_, true) => true | _ => false end) = true).
+      { rewrite (sm_info _ _ M). unfold is_box in Hbox. destruct (info s b) as [[? []]|]; auto. }
+      rewrite Hb1. simpl andb. cbv iota.
+      rewrite Hs'. constructor; cbn [s_info s_ids s_owned s_must s_torn info ids owned torn set_owned].
+      * apply (sm_info _ _ M). * apply (sm_ids _ _ M).
+      * intros x Hx. unfold upd_owned. destruct (x =? b); [reflexivity | apply (sm_owned _ _ M); exact Hx].
+      * intros x Hx. apply (sm_must _ _ M). exact Hx.
+      * symmetry; exact Ht.
+    + (* EDel *)
+      cbn [step1] in Hs', Hbad1.
+      destruct (live s o) eqn:Hlive; simpl andb in Hs', Hbad1; cbv iota in Hs', Hbad1; [|discriminate].
+      destruct (kind_of s o) as [k'|] eqn:Hk; [|discriminate].
+      destruct (kind_eqb k k') eqn:Hkk; [|discriminate].
+      assert (k = k') by (destruct k, k'; simpl in Hkk; congruence). subst k'.
+      rewrite (sim_live _ _ _ M Hlive).
+      assert (Hb1 : (match s_info p o with Some (k', _) => kind_eqb k k' | None => false end) = true).
+      { rewrite (sm_info _ _ M). unfold kind_of in Hk. destruct (info s o) as [[k1 ?]|]; [|discriminate].
+        simpl in Hk. inversion Hk; subst. exact Hkk. }
+      rewrite Hb1. simpl andb. cbv iota.
+      destruct (del_ext s k o S Hlive Hk) as (G' & E').
+      assert (Hs'' : s' = match k with
+                          | KRaw => finalise true (fuel_of s) s o
+                          | _ => gc_rem true (finalise true (fuel_of s)) s o
+                          end) by (rewrite Hs'; destruct k; reflexivity).
+      rewrite <- Hs'' in E', G'.
+      destruct (live_spec _ _ Hlive) as [Hf0 Hinf].
+      constructor; cbn [s_info s_ids s_owned s_must s_torn].
+      * intros x. rewrite (e_info _ _ E'). apply (sm_info _ _ M).
+      * rewrite (e_ids _ _ E'). apply (sm_ids _ _ M).
+      * intros x Hx. rewrite (e_owned _ _ E' x Hx). apply (sm_owned _ _ M).
+        pose proof (e_fin _ _ E' x). lia.
+      * intros x Hx.
+        destruct (chain_reach p s M S R Ht Hdg _ _ o x (fun _ => Hf0) Hx) as [Hin|HR].
+        -- apply (e_done _ _ E'). apply (sm_must _ _ M). exact Hin.
+        -- destruct (running s) eqn:Hrun.
+           ++ exact (delete_reaches_owned h k o x Hca Ht Hlive Hk Hrun HR).
+           ++ (* stopped: only del_raw of an object that owns nothing is allowed *)
+              unfold stop_ok in Hce. rewrite Hrun in Hce. simpl in Hce.
+              destruct k; try discriminate.
+              destruct (owned s o) eqn:Hown; [discriminate|].
+              inversion HR; subst; [|congruence].
+              exact (explicit_delete_finalises h KRaw x Hca Ht Hlive Hk (or_introl eq_refl)).
+      * rewrite (e_torn _ _ E'). symmetry; exact Ht.
+    + (* ECollect *)
+      destruct (sweep_ok order marks s G Hpe) as (_ & _ & E' & _).
+      cbn [step1] in Hs'. rewrite <- Hs' in E'.
+      constructor.
+      * intros x. rewrite (e_info _ _ E'). apply (sm_info _ _ M).
+      * rewrite (e_ids _ _ E'). apply (sm_ids _ _ M).
+      * intros x Hx. rewrite (e_owned _ _ E' x Hx). apply (sm_owned _ _ M).
+        pose proof (e_fin _ _ E' x). lia.
+      * intros x Hx. apply (e_done _ _ E'). apply (sm_must _ _ M). exact Hx.
+      * rewrite (e_torn _ _ E'). apply (sm_torn _ _ M).
+    + (* EStop *)
+      rewrite Hs'. constructor; apply M.
+    + (* EStart *)
+      rewrite Hs'. constructor; apply M.
+    + (* ETeardown *)
+      destruct (sweep_ok order [] s G Hpe) as (_ & _ & E' & _).
+      cbn [step1] in Hs'.
+      constructor; cbn [s_info s_ids s_owned s_must s_torn]; rewrite Hs'; cbn [info ids owned torn set_torn set_reg].
+      * intros x. rewrite (e_info _ _ E'). apply (sm_info _ _ M).
+      * rewrite (e_ids _ _ E'). apply (sm_ids _ _ M).
+      * intros x Hx. change (fin_count (sweep true true order [] s) x = 0) in Hx.
+        rewrite (e_owned _ _ E' x Hx). apply (sm_owned _ _ M).
+        pose proof (e_fin _ _ E' x). lia.
+      * intros x Hx. rewrite <- Hs'. apply in_app_iff in Hx. destruct Hx as [Hx|Hx].
+        -- apply filter_In in Hx. destruct Hx as [_ Hx]. rewrite (sm_info _ _ M) in Hx.
+           destruct (info s x) as [[[] bb]|] eqn:Hi; try discriminate.
+           exact (teardown_complete h order x bb Hca Ht Hi).
+        -- assert (Hd : done (sweep true true order [] s) x) by (apply (e_done _ _ E'); apply (sm_must _ _ M); exact Hx).
+           rewrite Hs'. exact Hd.
+      * reflexivity.
+Qed.
+
+Theorem refines_spec h x :
+  bad (runF h) = false -> no_alloc_or_del_in_stop_window true true h = true ->
+  In x (s_must (sp_run h)) -> fin_count (runF h) x = 1 /\ free_count (runF h) x = 1.
+Proof. intros Hb Hc Hx. destruct (refines_spec_sim h Hb Hc) as [M _]. exact (sm_must _ _ M x Hx). Qed.
+
+Lemma refines_spec_sw r w : r = true -> w = true -> forall h x,
+  bad (run r w h) = false -> no_alloc_or_del_in_stop_window r w h = true ->
+  In x (s_must (sp_run h)) -> fin_count (run r w h) x = 1 /\ free_count (run r w h) x = 1.
+Proof. intros -> ->. exact refines_spec. Qed.
+
+Example sample_spec_must : In 5 (s_must (sp_run sample_history)) /\ s_bad (sp_run sample_history) = false.
+Proof. vm_compute. split; [left; reflexivity | reflexivity]. Qed.
